@@ -38,6 +38,9 @@ type adaptiveAdmissionController struct {
 		cachedAt   time.Time
 		cachedOK   bool
 		refreshing bool
+		// generation changes whenever the store or the trend config changes; a refresh
+		// that started under an earlier generation must not publish its result.
+		generation uint64
 	}
 }
 
@@ -72,6 +75,7 @@ func (c *adaptiveAdmissionController) setStore(store queue.Store) {
 	c.trend.cachedAt = time.Time{}
 	c.trend.cachedOK = false
 	c.trend.refreshing = false
+	c.trend.generation++
 	c.trend.mu.Unlock()
 }
 
@@ -90,6 +94,7 @@ func (c *adaptiveAdmissionController) updateConfig(cfg config.AdaptiveBackpressu
 	c.trend.cachedAt = time.Time{}
 	c.trend.cachedOK = false
 	c.trend.refreshing = false
+	c.trend.generation++
 	c.trend.mu.Unlock()
 }
 
@@ -265,24 +270,30 @@ func (c *adaptiveAdmissionController) trendSnapshot() (queue.BacklogTrendSignals
 			return queue.BacklogTrendSignals{}, false
 		}
 		c.trend.refreshing = true
+		generation := c.trend.generation
 		c.trend.mu.Unlock()
-		return c.refreshTrendSync(trendStore, trendCfg, now)
+		return c.refreshTrendSync(trendStore, trendCfg, now, generation)
 	}
 
 	if !c.trend.refreshing {
 		c.trend.refreshing = true
-		go c.refreshTrendAsync(trendStore, trendCfg, now)
+		go c.refreshTrendAsync(trendStore, trendCfg, now, c.trend.generation)
 	}
 	signals := c.trend.cached
 	c.trend.mu.Unlock()
 	return signals, true
 }
 
-func (c *adaptiveAdmissionController) refreshTrendSync(trendStore queue.BacklogTrendStore, trendCfg config.TrendSignalsConfig, now time.Time) (queue.BacklogTrendSignals, bool) {
+func (c *adaptiveAdmissionController) refreshTrendSync(trendStore queue.BacklogTrendStore, trendCfg config.TrendSignalsConfig, now time.Time, generation uint64) (queue.BacklogTrendSignals, bool) {
 	signals, err := computeTrendSignals(trendStore, trendCfg, now)
 
 	c.trend.mu.Lock()
 	defer c.trend.mu.Unlock()
+	if c.trend.generation != generation {
+		// Store or trend config changed meanwhile: the result still answers this
+		// caller, but it must not be cached for requests under the new config.
+		return signals, err == nil
+	}
 	c.trend.refreshing = false
 	if err == nil {
 		c.trend.cached = signals
@@ -296,11 +307,14 @@ func (c *adaptiveAdmissionController) refreshTrendSync(trendStore queue.BacklogT
 	return queue.BacklogTrendSignals{}, false
 }
 
-func (c *adaptiveAdmissionController) refreshTrendAsync(trendStore queue.BacklogTrendStore, trendCfg config.TrendSignalsConfig, now time.Time) {
+func (c *adaptiveAdmissionController) refreshTrendAsync(trendStore queue.BacklogTrendStore, trendCfg config.TrendSignalsConfig, now time.Time, generation uint64) {
 	signals, err := computeTrendSignals(trendStore, trendCfg, now)
 
 	c.trend.mu.Lock()
 	defer c.trend.mu.Unlock()
+	if c.trend.generation != generation {
+		return
+	}
 	c.trend.refreshing = false
 	if err != nil {
 		return
